@@ -41,8 +41,29 @@ def by_name(info):
                 for i, n in enumerate(info.model_name))
 
 
-def compare(a, b, names, mode, conds, what, sig, sc_shift=0., conds_T=None):
+def tie_penalties(src, info):
+    """per model name: the penalties of the limits of `src` on which that model sits exactly (its stored predicted log flux
+    equals log10 of the limit to 1e-9): whether such a limit counts as violated is decided by the last bit of the fitted
+    (A_V, scale), which legitimately depends on the order of the bands / models - either outcome is right"""
+    out = {}
+    if src is None or info.model_fluxes is None or not any(f in (2, 3) for f in src['flags']):
+        return out
+    for i, n in enumerate(info.model_name):
+        pens = []
+        for j, f in enumerate(src['flags']):
+            if f in (2, 3) and src['flux'][j] > 0:
+                if not (abs(float(info.model_fluxes[i][j]) - math.log10(src['flux'][j])) > 1e-9):
+                    pens.append(of.penalty_value(src['err'][j]))
+        if pens:
+            out[str(n).strip()] = pens
+    return out
+
+
+def compare(a, b, names, mode, conds, what, sig, sc_shift=0., conds_T=None, src=None, src_b=None):
     ra, rb = by_name(a), by_name(b)
+    # models that sit exactly on a limit in either result: counted as violated or not by the last bit, and (with several
+    # trial distances) the other outcome may send the fit to the neighbouring distance - neither result is wrong
+    ties = set(tie_penalties(src, a)) | set(tie_penalties(src_b if src_b is not None else src, b))
     if sorted(ra) != sorted(names) or sorted(rb) != sorted(names):
         fail('%s: model sets differ: %r vs %r' % (what, sorted(ra), sorted(rb)), sig)
     for m, name in enumerate(names):
@@ -53,6 +74,8 @@ def compare(a, b, names, mode, conds, what, sig, sc_shift=0., conds_T=None):
         # rounding in chi^2 scales with the size of the terms that cancel, T = sum w r^2, not with chi^2 itself
         scale = max(abs(c1), abs(c2), 1., conds_T.get('T', 0.) if isinstance(conds_T, dict) else 0.)
         if not abs(c1 - c2) <= (1e-9 + 100. * (2.3e-16 * conds[m]) ** 2) * scale:
+            if name in ties:
+                continue
             fail('%s: chi2 of model %s: %r vs %r' % (what, name, c1, c2), sig)
         if mode == '3d' and not (abs(sc1 - sc2) <= 1e-9):
             continue  # a chi^2 tie between two grid distances, established by the comparison above
@@ -148,7 +171,8 @@ def run_permute(case, ctx):
     mid = mperm == sorted(mperm)
     with ctx.tempdir() as d0, ctx.tempdir() as d1, ctx.tempdir() as d2:
         base = fit_all(case, d0, mode, av_range)
-        pf = fit_all(permuted_case(case, fperm, list(range(len(names))), mode), d1, mode, av_range)
+        pcase_f = permuted_case(case, fperm, list(range(len(names))), mode)
+        pf = fit_all(pcase_f, d1, mode, av_range)
         pm = fit_all(permuted_case(case, list(range(len(fperm))), mperm, mode), d2, mode, av_range)
         for i, src in enumerate(case['sources']):
             conds = conds_for(case, src, av_range, mode)
@@ -156,9 +180,10 @@ def run_permute(case, ctx):
                 labels.add('singular_source_skipped')
                 continue
             compare(base[i], pf[i], names, mode, conds,
-                    'source %d, filters permuted by %r' % (i, fperm), 'c11:filter_order_matters', conds_T=dict(LAST_T))
+                    'source %d, filters permuted by %r' % (i, fperm), 'c11:filter_order_matters', conds_T=dict(LAST_T), src=src,
+                    src_b=pcase_f['sources'][i])
             compare(base[i], pm[i], names, mode, conds,
-                    'source %d, models permuted by %r' % (i, mperm), 'c11:model_order_matters', conds_T=dict(LAST_T))
+                    'source %d, models permuted by %r' % (i, mperm), 'c11:model_order_matters', conds_T=dict(LAST_T), src=src)
     if not fid:
         labels.add('filters_permuted')
     if not mid:
